@@ -162,10 +162,6 @@ PROPS["C03"] = dict(
         H("c03_cursor_adv1_n6_last300", tier="thorough", mem_gb=24, timeout=1200, unwindset=efk(10), bounds="one-step induction: adv1_n6_last300"),
         H("c03_cursor_advby_n6_last300", tier="thorough", mem_gb=24, timeout=1200, unwindset=efk(10), bounds="one-step induction: advby_n6_last300"),
         H("c03_cursor_exhausted_n4_last1000", tier="quick", mem_gb=24, timeout=1200, unwindset=efk(8), bounds="any op after exhaustion"),
-        H("c03_cursor_skeleton300_seek", tier="thorough", mem_gb=24, timeout=2700, unwindset=SK300, bounds="300 concrete elements, any start, seek(any t)"),
-        H("c03_cursor_skeleton300_adv1", tier="thorough", mem_gb=24, timeout=2700, unwindset=SK300, bounds="300 concrete elements, any start, advance_one"),
-        H("c03_cursor_skeleton300_advby", tier="thorough", mem_gb=24, timeout=2700, unwindset=SK300, bounds="300 concrete elements, any start, advance_by(k<=70)"),
-        H("c03_get_pred_skeleton300", tier="thorough", mem_gb=24, timeout=2700, unwindset=SK300, bounds="300 concrete elements, get(any i), predecessor(any q)"),
         H("c03_cursor0_and_empty", tier="quick", mem_gb=24, timeout=600, unwindset=EFU, bounds="cursor()==cursor_from(0); empty sequence"),
         H("c03_witness_must_fail", tier="thorough", kind="witness", timeout=600, unwindset=EFU),
     ],
